@@ -375,13 +375,22 @@ fn eval_inner(line: &str, out: &mut String) -> R<()> {
             let y: i32 = t.int()?;
             t.end()?;
             use julian::YearKind::*;
-            out.push_str(match cal.year_kind(y) {
+            let k = cal.year_kind(y);
+            out.push_str(match k {
                 Common => "Common",
                 Leap => "Leap",
                 ReformCommon => "ReformCommon",
                 ReformLeap => "ReformLeap",
                 Skipped => "Skipped",
             });
+            let _ = write!(
+                out,
+                ";is_leap={};is_common={};is_reform={};is_skipped={}",
+                k.is_leap(),
+                k.is_common(),
+                k.is_reform(),
+                k.is_skipped()
+            );
         }
         "year_length" => {
             let cal = t.cal()?;
